@@ -12,8 +12,30 @@ Model of the AMP argument types that are modelled in Lean (C30), transcribing fr
   * `ListOf.toString` (`pack("!H", len(s)) + s` per element; `struct.error` above 65535) /
     `ListOf.fromString` (a bare `Int16StringReceiver` with `MAX_LENGTH = 99999` collecting
     strings, trailing incomplete data silently dropped, then `elementType.fromString` on each).
-`Float`, `Decimal`, `DateTime`, `Path`, `AmpList` are not modelled here (differential testing
-in `harness/corr/C30.py` only; `AmpList`'s framing is `Box.parseString ∘ serialize`).
+  * `DateTime.toString` (`%04i-%02i-%02iT%02i:%02i:%02i.%06i%s%02i:%02i`, the UTC offset rounded
+    towards zero to whole minutes, `ValueError` for a naive value or an offset outside ±1 day) /
+    `DateTime.fromString` (ASCII, exactly 32 characters, nine `int()` slices, the separators are
+    not looked at, sign `+`/`-`, `FixedOffsetTimeZone.fromSignHoursMinutes`, then the range checks of
+    `datetime.datetime(...)`)                                          → `dtToString` / `dtFromString`
+    A `datetime` is modelled by its FIELDS (year … microsecond + `utcoffset()` in microseconds),
+    not as an instant.
+  * `Decimal.toString` (`str(decimal.Decimal)`: `Decimal.__str__` of `_pydecimal.py`, which is
+    the specified behaviour of `_decimal` too, with `context.capitals = 1`) / `Decimal.fromString`
+    (`decimal.Decimal(str)`: strip, drop underscores, sign, `Inf[inity]` / `[s]NaN<digits>` /
+    `digits[.digits][E[±]digits]`, case-insensitive)                   → `decToString` / `decFromString`
+    A `Decimal` is its `as_tuple()`: sign, coefficient (a natural number: `_int` has no leading
+    zeros), exponent — or Infinity / NaN / sNaN with a payload (0 = none).
+  * `Float.toString/fromString` (`str(float)` / `float(bytes)`) are a PARAMETER of the model
+    (`FloatCodec`): nothing about IEEE formatting is transcribed.
+  * `AmpList.toStringProto/fromStringProto`, `_objectsToStrings/_stringsToObjects`,
+    `Argument.toBox/fromBox/retrieve` (optional arguments: `None` ↔ key absent; a missing required
+    key is `KeyError`; `parseString` on an over-long key prefix dies with `AttributeError` because
+    `_ParserHelper` has no `loseConnection`)                           → `rowToBox` / `rowFromBox` /
+    `ampListToString` / `ampListFromString`.  The names of a schema are assumed distinct (also after
+    `_wireNameToPythonIdentifier`), so a row is a tuple in schema order instead of a dict.
+  * `Path.toString` (`Unicode.toString(path.asTextMode().path)`) / `Path.fromString`
+    (`FilePath(Unicode.fromString(s))`, i.e. `abspath` of the decoded text): a `FilePath` is modelled by
+    its text-mode `.path`; `os.path.abspath` is a PARAMETER (`Ext.abspath`), not transcribed.
 
 Text (`str`) is a list of code points (`Nat`); code points ≥ 0x110000 do not exist in Python.
 -/
@@ -22,6 +44,7 @@ open Twisted.Amp.Box
 
 inductive ArgErr where
   | valueError | typeError | unicodeEncodeError | unicodeDecodeError | structError
+  | keyError | tooLong | attributeError | invalidOperation
   deriving Repr, DecidableEq
 
 /-! ### Integer -/
@@ -172,39 +195,387 @@ def mapExcept {α β : Type} (f : α → Except ArgErr β) : List α → Except 
 def listFromString {α : Type} (dec : Bytes → Except ArgErr α) (s : Bytes) : Except ArgErr (List α) :=
   mapExcept dec (splitStrings s)
 
-/-! ### the modelled argument types as one family -/
+/-! ### fixed-width decimal text -/
 
-inductive Ty where
-  | int | str | uni | bool
-  | list (t : Ty)
+/-- value of a digit string read left to right from `acc` -/
+def digitsVal (acc : Nat) (bs : Bytes) : Nat := bs.foldl (fun a b => a * 10 + (b.toNat - 48)) acc
+
+/-- `"%0<w>i" % n` for `n ≥ 0` -/
+def padNat (w n : Nat) : Bytes :=
+  List.replicate (w - (natToDec n).length) 48 ++ natToDec n
+
+/-! ### DateTime -/
+
+/-- the fields of a `datetime.datetime`; `off` = `utcoffset()` in microseconds (`none`: naive) -/
+structure DT where
+  year : Nat
+  month : Nat
+  day : Nat
+  hour : Nat
+  minute : Nat
+  second : Nat
+  micro : Nat
+  off : Option Int
   deriving Repr, DecidableEq
 
+def isLeap (y : Nat) : Bool := y % 4 == 0 && (y % 100 != 0 || y % 400 == 0)
+
+def daysInMonth (y m : Nat) : Nat :=
+  if m == 2 then (if isLeap y then 29 else 28)
+  else if m == 4 || m == 6 || m == 9 || m == 11 then 30 else 31
+
+/-- the invariant of every `datetime.datetime` object -/
+def DT.validFields (d : DT) : Prop :=
+  1 ≤ d.year ∧ d.year ≤ 9999 ∧ 1 ≤ d.month ∧ d.month ≤ 12 ∧ 1 ≤ d.day ∧ d.day ≤ daysInMonth d.year d.month
+  ∧ d.hour < 24 ∧ d.minute < 60 ∧ d.second < 60 ∧ d.micro < 1000000
+
+instance (d : DT) : Decidable d.validFields := by unfold DT.validFields; infer_instance
+
+/-- whole minutes of an offset in microseconds, rounded towards zero (the repaired rounding) -/
+def offsetMinutes (o : Int) : Int :=
+  if o < 0 then -((-o) / 60000000) else o / 60000000
+
+/-- `DateTime.toString` -/
+def dtToString (d : DT) : Except ArgErr Bytes :=
+  match d.off with
+  | none => .error .valueError
+  | some o =>
+    if o ≤ -86400000000 ∨ 86400000000 ≤ o then .error .valueError      -- `utcoffset()` raises
+    else
+      let m := offsetMinutes o
+      let sign : UInt8 := if m > 0 then 43 else 45
+      let a := m.natAbs
+      .ok (padNat 4 d.year ++ 45 :: padNat 2 d.month ++ 45 :: padNat 2 d.day ++ 84 :: padNat 2 d.hour
+        ++ 58 :: padNat 2 d.minute ++ 58 :: padNat 2 d.second ++ 46 :: padNat 6 d.micro
+        ++ sign :: padNat 2 (a / 60) ++ 58 :: padNat 2 (a % 60))
+
+/-- `datetime.datetime(y, mo, d, h, mi, s, us, tz)` with `tz.offset = offMin` minutes:
+    `none` = `ValueError` -/
+def mkDateTime (y mo d h mi s us offMin : Int) : Option DT :=
+  if 1 ≤ y ∧ y ≤ 9999 ∧ 1 ≤ mo ∧ mo ≤ 12 ∧ 1 ≤ d ∧ d ≤ (daysInMonth y.toNat mo.toNat : Nat)
+      ∧ 0 ≤ h ∧ h < 24 ∧ 0 ≤ mi ∧ mi < 60 ∧ 0 ≤ s ∧ s < 60 ∧ 0 ≤ us ∧ us < 1000000 then
+    some ⟨y.toNat, mo.toNat, d.toNat, h.toNat, mi.toNat, s.toNat, us.toNat, some (offMin * 60000000)⟩
+  else none
+
+/-- the part of `DateTime.fromString` after `nativeString` -/
+def dtParse (s : Bytes) : Option DT :=
+  match s with
+  | [y0, y1, y2, y3, _, m0, m1, _, d0, d1, _, h0, h1, _, i0, i1, _, s0, s1, _,
+     u0, u1, u2, u3, u4, u5, sg, a0, a1, _, b0, b1] => do
+    let y ← pyInt [y0, y1, y2, y3]
+    let mo ← pyInt [m0, m1]
+    let d ← pyInt [d0, d1]
+    let h ← pyInt [h0, h1]
+    let mi ← pyInt [i0, i1]
+    let se ← pyInt [s0, s1]
+    let us ← pyInt [u0, u1, u2, u3, u4, u5]
+    let oh ← pyInt [a0, a1]
+    let om ← pyInt [b0, b1]
+    let offMin ← if sg == 45 then some (-oh * 60 + -om) else if sg == 43 then some (oh * 60 + om) else none
+    mkDateTime y mo d h mi se us offMin
+  | _ => none
+
+/-- `DateTime.fromString` -/
+def dtFromString (s : Bytes) : Except ArgErr DT :=
+  if s.any (fun b => b ≥ 128) then .error .unicodeDecodeError
+  else match dtParse s with
+    | some d => .ok d
+    | none => .error .valueError
+
+/-! ### Decimal -/
+
+/-- `decimal.Decimal.as_tuple()` -/
+inductive Dec where
+  | fin (neg : Bool) (coeff : Nat) (exp : Int)
+  | inf (neg : Bool)
+  | nan (neg : Bool) (signaling : Bool) (payload : Nat)
+  deriving Repr, DecidableEq
+
+def signStr (neg : Bool) : Bytes := if neg then [45] else []
+def zeros (n : Nat) : Bytes := List.replicate n 48
+
+/-- `"%+d" % x` -/
+def fmtPlusD (x : Int) : Bytes := (if x < 0 then 45 else 43) :: natToDec x.natAbs
+
+def bInfinity : Bytes := [73, 110, 102, 105, 110, 105, 116, 121]     -- "Infinity"
+def bNaN : Bytes := [78, 97, 78]                                     -- "NaN"
+def bsNaN : Bytes := [115, 78, 97, 78]                               -- "sNaN"
+
+/-- `str(d)` (`Decimal.__str__`, scientific notation, `capitals = 1`) -/
+def decToString : Dec → Bytes
+  | .inf neg => signStr neg ++ bInfinity
+  | .nan neg sig p => signStr neg ++ (if sig then bsNaN else bNaN) ++ (if p = 0 then [] else natToDec p)
+  | .fin neg c e =>
+    let ds := natToDec c
+    let n : Int := ds.length
+    let leftdigits : Int := e + n
+    let dotplace : Int := if e ≤ 0 ∧ leftdigits > -6 then leftdigits else 1
+    let intpart : Bytes :=
+      if dotplace ≤ 0 then [48]
+      else if dotplace ≥ n then ds ++ zeros (dotplace - n).toNat
+      else ds.take dotplace.toNat
+    let fracpart : Bytes :=
+      if dotplace ≤ 0 then 46 :: (zeros (-dotplace).toNat ++ ds)
+      else if dotplace ≥ n then []
+      else 46 :: ds.drop dotplace.toNat
+    let exp : Bytes := if leftdigits = dotplace then [] else 69 :: fmtPlusD (leftdigits - dotplace)
+    signStr neg ++ intpart ++ fracpart ++ exp
+
+/-- `str.isspace` on ASCII: `Py_ISSPACE` plus the separators FS GS RS US -/
+def isSpaceStr (b : UInt8) : Bool := isSpace b || (28 ≤ b && b ≤ 31)
+
+def lstripStr : Bytes → Bytes
+  | [] => []
+  | b :: bs => if isSpaceStr b then lstripStr bs else b :: bs
+
+def rstripStr : Bytes → Bytes
+  | [] => []
+  | b :: bs => match rstripStr bs with
+    | [] => if isSpaceStr b then [] else [b]
+    | r => b :: r
+
+def lowerByte (b : UInt8) : UInt8 := if 65 ≤ b && b ≤ 90 then b + 32 else b
+
+/-- does `s` start with the (lower-case) literal, ignoring case?  the rest if so -/
+def ciPrefix : Bytes → Bytes → Option Bytes
+  | [], s => some s
+  | _ :: _, [] => none
+  | l :: ls, b :: bs => if lowerByte b == l then ciPrefix ls bs else none
+
+def allDigits (s : Bytes) : Bool := s.all isDigit
+
+/-- the exponent after `E`: `[+-]?digits+` -/
+def parseExp (s : Bytes) : Option Int :=
+  match s with
+  | 43 :: ds => if !ds.isEmpty && allDigits ds then some (Int.ofNat (digitsVal 0 ds)) else none
+  | 45 :: ds => if !ds.isEmpty && allDigits ds then some (-(Int.ofNat (digitsVal 0 ds))) else none
+  | ds => if !ds.isEmpty && allDigits ds then some (Int.ofNat (digitsVal 0 ds)) else none
+
+/-- `digits[.digits][E[±]digits]` with at least one digit in the coefficient -/
+def parseNumber (neg : Bool) (s : Bytes) : Option Dec :=
+  let ip := s.takeWhile isDigit
+  let r1 := s.dropWhile isDigit
+  let fp := match r1 with
+    | 46 :: r => r.takeWhile isDigit
+    | _ => []
+  let r2 := match r1 with
+    | 46 :: r => r.dropWhile isDigit
+    | _ => r1
+  if ip.length + fp.length = 0 then none
+  else match r2 with
+    | [] => some (.fin neg (digitsVal 0 (ip ++ fp)) (-(Int.ofNat fp.length)))
+    | e :: r3 =>
+      if e == 69 || e == 101 then
+        (parseExp r3).map fun x => .fin neg (digitsVal 0 (ip ++ fp)) (x - Int.ofNat fp.length)
+      else none
+
+def parseDecBody (neg : Bool) (s : Bytes) : Option Dec :=
+  match ciPrefix [110, 97, 110] s with                                  -- "nan"
+  | some r => if allDigits r then some (.nan neg false (digitsVal 0 r)) else none
+  | none =>
+    match ciPrefix [115, 110, 97, 110] s with                           -- "snan"
+    | some r => if allDigits r then some (.nan neg true (digitsVal 0 r)) else none
+    | none =>
+      match ciPrefix [105, 110, 102] s with                             -- "inf"
+      | some r => if r.isEmpty || ciPrefix [105, 110, 105, 116, 121] r == some [] then some (.inf neg) else none
+      | none => parseNumber neg s
+
+/-- `decimal.Decimal(text)` for ASCII text; `none` = `InvalidOperation`.  Exponents beyond
+    libmpdec's ±999999999999999999 (refused by the real code) are outside the model. -/
+def pyDecimal (s : Bytes) : Option Dec :=
+  match (rstripStr (lstripStr s)).filter (fun b => b != 95) with
+  | 45 :: r => parseDecBody true r
+  | 43 :: r => parseDecBody false r
+  | r => parseDecBody false r
+
+/-- `Decimal.fromString` -/
+def decFromString (s : Bytes) : Except ArgErr Dec :=
+  if s.any (fun b => b ≥ 128) then .error .unicodeDecodeError
+  else match pyDecimal s with
+    | some d => .ok d
+    | none => .error .invalidOperation
+
+/-! ### Float: `str(float)` / `float(bytes)` are a parameter -/
+
+structure FloatCodec where
+  /-- `float` values (NaNs identified) -/
+  F : Type
+  /-- `str(x).encode("ascii")` -/
+  repr : F → Bytes
+  /-- `float(s)`; `none` = `ValueError` -/
+  parse : Bytes → Option F
+
+/-- the CPython guarantee: `float(repr(x)) == x` (NaN ↦ NaN) -/
+def FloatCodec.RoundTrips (C : FloatCodec) : Prop := ∀ x, C.parse (C.repr x) = some x
+
+/-- What the model takes from the platform instead of transcribing it: the float codec and
+    `os.path.abspath` on text (used by `FilePath.__init__`; depends on the working directory). -/
+structure Ext where
+  float : FloatCodec
+  /-- `os.path.abspath(text)` -/
+  abspath : List Nat → List Nat
+
+/-- `abspath(abspath(p)) == abspath(p)`: normalising a normalised absolute path changes nothing -/
+def Ext.AbspathIdempotent (X : Ext) : Prop := ∀ p, X.abspath (X.abspath p) = X.abspath p
+
+/-! ### AmpList framing -/
+
+def boxErr : Err → ArgErr
+  | .tooLong => .tooLong
+  | .emptyKey => .valueError
+  | .noEmptyBoxes => .valueError      -- not raised by `serialize`
+
+/-- `b"".join(box.serialize() for box in boxes)`, the boxes being computed row by row -/
+def ampListToString {ρ : Type} (toBox : ρ → Except ArgErr Box) : List ρ → Except ArgErr Bytes
+  | [] => .ok []
+  | r :: rs =>
+    match toBox r with
+    | .error e => .error e
+    | .ok b => match serialize b with
+      | .error e => .error (boxErr e)
+      | .ok w => match ampListToString toBox rs with
+        | .error e => .error e
+        | .ok ws => .ok (w ++ ws)
+
+/-- `parseString(data)` as `AmpList.fromStringProto` sees it: `lengthLimitExceeded` calls
+    `self.transport.loseConnection()` on a `_ParserHelper`, which has no such attribute -/
+def parseStringChecked (data : Bytes) : Except ArgErr (List Box) :=
+  let p := receive [data]
+  if p.exceeded then .error .attributeError else .ok p.core.received
+
+def ampListFromString {ρ : Type} (fromBox : Box → Except ArgErr ρ) (s : Bytes) : Except ArgErr (List ρ) :=
+  match parseStringChecked s with
+  | .error e => .error e
+  | .ok boxes => mapExcept fromBox boxes
+
+/-! ### the modelled argument types as one family -/
+
+mutual
+inductive Ty where
+  | int | str | uni | bool | float | dec | dt | path
+  | list (t : Ty)
+  | amplist (s : Schema)
+/-- `AmpList.subargs`: `(name, argument)` pairs, `optional` being an attribute of the argument -/
+inductive Schema where
+  | nil
+  | cons (name : Bytes) (optional : Bool) (t : Ty) (rest : Schema)
+end
+
+def Schema.names : Schema → List Bytes
+  | .nil => []
+  | .cons n _ _ rest => n :: rest.names
+
+mutual
+/-- Argument types the real classes support: the element type of a `ListOf` "must be implemented
+    using only the `fromString` and `toString` methods" (its docstring) — `AmpList` only has
+    `toStringProto`/`fromStringProto`, so `ListOf(AmpList(…))` is excluded (it raises `TypeError`
+    on the `None` that `Argument.toString` returns); the names of a schema are distinct. -/
+def Ty.supported : Ty → Bool
+  | .list (.amplist _) => false
+  | .list t => t.supported
+  | .amplist s => decide s.names.Nodup && s.supported
+  | _ => true
+def Schema.supported : Schema → Bool
+  | .nil => true
+  | .cons _ _ t rest => t.supported && rest.supported
+end
+
+mutual
 /-- Python values of an argument type -/
-def Val : Ty → Type
+def Val (X : Ext) : Ty → Type
   | .int => Int
   | .str => Bytes
   | .uni => List Nat
   | .bool => Bool
-  | .list t => List (Val t)
+  | .float => X.float.F
+  | .dec => Dec
+  | .dt => DT
+  | .path => List Nat
+  | .list t => List (Val X t)
+  | .amplist s => List (Row X s)
+/-- one element of an `AmpList` value: the dict's values in schema order (`None` allowed for
+    optional arguments only) -/
+def Row (X : Ext) : Schema → Type
+  | .nil => Unit
+  | .cons _ true t rest => Option (Val X t) × Row X rest
+  | .cons _ false t rest => Val X t × Row X rest
+end
 
-/-- `<Argument>.toString(v)` -/
-def toString : (t : Ty) → Val t → Except ArgErr Bytes
+mutual
+/-- `<Argument>.toStringProto(v, proto)` (= `toString(v)` for every type but `AmpList`) -/
+def toString (X : Ext) : (t : Ty) → Val X t → Except ArgErr Bytes
   | .int, v => .ok (intToString v)
   | .str, v => .ok v
   | .uni, v => match utf8Encode v with
     | some b => .ok b
     | none => .error .unicodeEncodeError
   | .bool, v => .ok (boolToString v)
-  | .list t, v => listToString (toString t) v
+  | .float, v => .ok (X.float.repr v)
+  | .dec, v => .ok (decToString v)
+  | .dt, v => dtToString v
+  | .path, v => match utf8Encode v with
+    | some b => .ok b
+    | none => .error .unicodeEncodeError
+  | .list t, v => listToString (toString X t) v
+  | .amplist s, v => ampListToString (rowToBox X s) v
+/-- `_objectsToStrings(objects, subargs, Box(), proto)`: `toBox` of every argument in order -/
+def rowToBox (X : Ext) : (s : Schema) → Row X s → Except ArgErr Box
+  | .nil, _ => .ok []
+  | .cons _ true _ rest, (none, r) => rowToBox X rest r
+  | .cons name true t rest, (some v, r) =>
+    match toString X t v with
+    | .error e => .error e
+    | .ok w => match rowToBox X rest r with
+      | .error e => .error e
+      | .ok b => .ok ((name, w) :: b)
+  | .cons name false t rest, (v, r) =>
+    match toString X t v with
+    | .error e => .error e
+    | .ok w => match rowToBox X rest r with
+      | .error e => .error e
+      | .ok b => .ok ((name, w) :: b)
+end
 
-/-- `<Argument>.fromString(s)` -/
-def fromString : (t : Ty) → Bytes → Except ArgErr (Val t)
+mutual
+/-- `<Argument>.fromStringProto(s, proto)` (= `fromString(s)` for every type but `AmpList`) -/
+def fromString (X : Ext) : (t : Ty) → Bytes → Except ArgErr (Val X t)
   | .int, s => intFromString s
   | .str, s => .ok s
   | .uni, s => match utf8Decode s with
     | some v => .ok v
     | none => .error .unicodeDecodeError
   | .bool, s => boolFromString s
-  | .list t, s => listFromString (fromString t) s
+  | .float, s => match X.float.parse s with
+    | some v => .ok v
+    | none => .error .valueError
+  | .dec, s => decFromString s
+  | .dt, s => dtFromString s
+  | .path, s => match utf8Decode s with
+    | some v => .ok (X.abspath v)
+    | none => .error .unicodeDecodeError
+  | .list t, s => listFromString (fromString X t) s
+  | .amplist sch, s => ampListFromString (rowFromBox X sch) s
+/-- `_stringsToObjects(box, subargs, proto)`: `fromBox` of every argument in order -/
+def rowFromBox (X : Ext) : (s : Schema) → Box → Except ArgErr (Row X s)
+  | .nil, _ => .ok ()
+  | .cons name true t rest, b =>
+    match b.lookup name with
+    | none => match rowFromBox X rest b with
+      | .error e => .error e
+      | .ok r => .ok (none, r)
+    | some w => match fromString X t w with
+      | .error e => .error e
+      | .ok v => match rowFromBox X rest b with
+        | .error e => .error e
+        | .ok r => .ok (some v, r)
+  | .cons name false t rest, b =>
+    match b.lookup name with
+    | none => .error .keyError
+    | some w => match fromString X t w with
+      | .error e => .error e
+      | .ok v => match rowFromBox X rest b with
+        | .error e => .error e
+        | .ok r => .ok (v, r)
+end
 
 end Twisted.Amp.Args
